@@ -248,28 +248,20 @@ pub fn run(run: &mut Run) -> PResult {
     hands::<7>(run, if run.tier == Tier::Thorough { 1 } else { 8 })?;
     // slot-wise
     {
-        let cnt = std::cell::Cell::new(0u64);
-        let nt = std::cell::Cell::new(0u64);
-        let frozen = std::cell::Cell::new(false);
-        let distinct = std::cell::RefCell::new(engine::Distinct::new());
-        let cases = if run.tier == Tier::Thorough { 2_000_000 } else { 200_000 };
-        let strat = (2usize..=7).prop_flat_map(|n| proptest::collection::vec(word_strategy(), n));
-        let res = pt::run(run.seed, 0xC08, cases, &strat, |ws| {
-            if !frozen.get() {
-                cnt.set(cnt.get() + 1);
-                let mut s = ws.clone();
-                s.sort_unstable();
-                let special = ws.iter().any(|w| !card::is_card(*w)) || s.windows(2).any(|p| p[0] == p[1]);
-                if distinct.borrow_mut().insert(hash_words(&ws)) && special {
-                    nt.set(nt.get() + 1);
-                }
-            }
+        let st = engine::RStats::new();
+        let cases = if run.tier == Tier::Thorough { 8_000_000 } else { 1_000_000 };
+        let make = || (2usize..=7).prop_flat_map(|n| proptest::collection::vec(word_strategy(), n));
+        let res = pt::run_sharded(run.seed, 0xC08, cases, &make, &|ws: Vec<u32>| {
+            let mut s = ws.clone();
+            s.sort_unstable();
+            let special = ws.iter().any(|w| !card::is_card(*w)) || s.windows(2).any(|p| p[0] == p[1]);
+            st.note(hash_words(&ws), special, Some(&format!("size {}", ws.len())), || json!({"hand": card::render_hand(&ws)}));
             slotwise(&ws).map_err(|e| {
-                frozen.set(true);
+                st.freeze();
                 e
             })
         });
-        run.generator("proptest hands of 2..7 slots, slot-wise shift", "proptest", None, cnt.get(), nt.get(), "words: 2/3 cards, blank, raw u32, one-bit corruptions");
+        st.flush(run, "proptest hands of 2..7 slots, slot-wise shift", "proptest (8 shards)", None, "words: 2/3 cards, blank, raw u32, one-bit corruptions");
         if let Err(f) = res {
             let m = slotwise(&f.value).err().unwrap_or_default();
             return run.violation("C08.slotwise", &card::render_hand(&f.value), hand_json(&f.value), &m);
